@@ -11,6 +11,7 @@ constructors, user validator functions, adapt, the object's class): every
 theorem holds for every `Env`.
 -/
 import TraitsVerif.Lemmas.ValOrder
+import TraitsVerif.Lemmas.ValCSrc6
 import TraitsVerif.Generated.ValidateTables
 namespace TraitsVerif.Props.C03
 open TraitsVerif TraitsVerif.Py.Value TraitsVerif.Model.Val
@@ -214,5 +215,76 @@ theorem C03_agree_full_is_false : ¬ C03_agree_full := by
   have := h E0 E0_castIdem (.coerceH .int) (.coerce .int []) (Val.ofBool true) (by simp [descOf, coerceRest]) rfl
   rw [C03_agree_fails_at_coerce.1.1, C03_agree_fails_at_coerce.1.2] at this
   simp [Agree] at this
+
+
+/-! ## The model of the compiled validators IS the source text
+
+`harness/translate/cvalidators.py` translates, on every run, the C source text of every
+`validate_trait_*` function of ctraits.c (and of the helpers they call) into terms of the
+deep-embedded language `Model/CSrc.lean` (`Generated/CValidators.lean`).  `srcAlone` picks the
+function `validate_handlers[kind]` names (translated table) and interprets its term on
+`(trait, obj, name, value)`; `norm` identifies a TraitError raised by something a validator
+calls with the validator's own (the caller cannot tell them apart).  The theorems hold for
+every environment, every inner-trait oracle, every loop bound `fuel` exceeding the tuple
+sizes, and every value.  Side conditions (`descOk` / `entryOk`, Lemmas/ValCSrc6.lean):
+`adapt()` does not return None wrapped as an adapter; inside a compound an
+`adapt='default'` member's default is the compound's (finding F49: the C code asks the
+compound trait); `slow_validate` reports TraitError as such; and, for Tuple descriptors
+only, `TupleCheckSpec` — the helper `validate_trait_tuple_check` (in-place construction of the
+result tuple) is translated and interpreted but its equation with `tupleCheck` is NOT proved. -/
+
+open TraitsVerif.Model.CSrc in
+/-- `fastAlone` is the interpretation of the source text of the stand-alone validators:
+for every descriptor `d` and value `v`, running the translated C function
+`validate_handlers[d.kind]` gives exactly `fastAlone E d v`. -/
+theorem C03_fast_is_source (E : Env) (hA : AdaptSome E) (inner : Desc → Val → Res) (cdflt : Val) (fuel : Nat)
+    (d : Desc) (v : Val) (hok : descOk E inner cdflt fuel d) :
+    srcAlone E inner cdflt fuel d v = some (norm (fastAlone E d v)) :=
+  srcAlone_eq E inner cdflt fuel hA d v hok
+
+open TraitsVerif.Model.CSrc in
+/-- `fastInCompound` (hence every arm of `complexCase` and the loop `fastComplex`) is the
+interpretation of the source text of `validate_trait_complex`: its `for` loop and `switch`
+run on the one-entry compound `(7, (d,))` give exactly `fastInCompound E d v`; and on any
+compound descriptor the whole function gives `fastAlone E (.complex ds) v` (previous theorem). -/
+theorem C03_compound_case_is_source (E : Env) (hA : AdaptSome E) (inner : Desc → Val → Res) (cdflt : Val)
+    (fuel : Nat) (d : Desc) (v : Val) (hok : entryOk E inner cdflt fuel d) (hf : 1 < fuel) :
+    srcFn E inner cdflt fuel "validate_trait_complex" (.complex [d]) v = some (norm (fastInCompound E d v)) :=
+  srcInCompound_eq E inner cdflt fuel hA d v hok hf
+
+open TraitsVerif.Model.CSrc in
+/-- C03_copies_agree about the two interpreted SOURCES: for every descriptor that can be
+an alternative, the `case` inside `validate_trait_complex` and the stand-alone C function,
+both interpreted on their translated text, return the same result for every value. -/
+theorem C03_copies_agree_source (E : Env) (hA : AdaptSome E) (inner : Desc → Val → Res) (cdflt : Val)
+    (fuel : Nat) (d : Desc) (v : Val) (h : d.isAlt = true)
+    (hok : entryOk E inner cdflt fuel d) (hok' : descOk E inner cdflt fuel d) (hf : 1 < fuel) :
+    srcFn E inner cdflt fuel "validate_trait_complex" (.complex [d]) v = srcAlone E inner cdflt fuel d v := by
+  rw [C03_compound_case_is_source E hA inner cdflt fuel d v hok hf,
+    C03_fast_is_source E hA inner cdflt fuel d v hok', (C03_copies_agree E d v h).2]
+
+open TraitsVerif.Model.CSrc in
+/-- Fast ≡ Python with the C side read from the source: wherever the Python path lets no
+foreign exception out (C03_agree_compound_partial), the interpreted C function returns what
+the Python validate method of the model returns. -/
+theorem C03_source_agrees_python_partial (E : Env) (hE : CastIdem E) (hA : AdaptSome E)
+    (inner : Desc → Val → Res) (cdflt : Val) (fuel : Nat) (t : TraitType) (d : Desc) (v : Val)
+    (hd : descOf E t = some d) (hc : t.clean = true) (hv : v.notTupleSub = true)
+    (hr : ∀ e, pyValidate E t v ≠ .raised e) (hok : descOk E inner cdflt fuel d) :
+    srcAlone E inner cdflt fuel d v = some (norm (pyValidate E t v)) := by
+  rw [C03_fast_is_source E hA inner cdflt fuel d v hok, C03_agree_compound_partial E hE t d v hd hc hv hr]
+
+theorem E0_adaptSome : TraitsVerif.Model.CSrc.AdaptSome E0 := by
+  intro v cls r h; simp [E0] at h
+
+/-- The side conditions are satisfiable on a non-trivial compound (Either(Int, Str, Bool,
+Range(0.0, 1.0, exclude_high), Instance(C, allow_none))) with a loop bound of 8. -/
+example : TraitsVerif.Model.CSrc.descOk E0 (fastAlone E0) Val.none 8
+    (.complex [.int, .coerce .str [], .coerce .bool [none, some .npBool],
+      .floatRange (some (.fin 0)) (some (.fin 4)) 2, .instChk true (.user 1)]) := by
+  refine ⟨?_, by decide⟩
+  intro d hd
+  simp at hd
+  rcases hd with rfl | rfl | rfl | rfl | rfl <;> simp [TraitsVerif.Model.CSrc.entryOk]
 
 end TraitsVerif.Props.C03
